@@ -1,5 +1,6 @@
 import FmpRpc.Model.Tags
 import FmpRpc.Model.Msg
+import FmpRpc.Proofs.TagsLemmas
 /-
   C19 — RPC tags travel with the call and contexts are never mutated.
 -/
@@ -18,13 +19,13 @@ def WellFormed (w : World) : Prop :=
     (the add copies before extending, the read returns a copy). -/
 theorem no_alias (ops : List Op) :
     NoAlias (ops.foldl apply World.init) ∧ WellFormed (ops.foldl apply World.init) := by
-  sorry
+  exact inv_foldl ops World.init inv_init.1 inv_init.2
 
 /-- **Persistence**: no operation ever changes the tags seen through an
     existing context. -/
 theorem add_is_persistent (w : World) (hn : NoAlias w) (hw : WellFormed w) (op : Op) (c : Nat)
     (hc : c < w.ctxs.length) : tagsOf (apply w op) c = tagsOf w c := by
-  sorry
+  exact persistent w hn hw op c hc
 
 /-- adding returns a NEW context whose tags are the old ones overridden by
     the added ones -/
@@ -33,13 +34,13 @@ theorem add_result (w : World) (hn : NoAlias w) (hw : WellFormed w) (ctx t : Nat
     let r := addTags w ctx t
     r.2 = w.ctxs.length ∧
     tagsOf r.1 r.2 = some (((tagsOf w ctx).getD []).merge (w.obj t)) := by
-  sorry
+  exact add_result' w ctx t (hw.1 t ht)
 
 /-- a map read out is a copy: equal content, fresh identity -/
 theorem read_is_copy (w : World) (hw : WellFormed w) (ctx : Nat) (o : Nat)
     (h : (tagsFromContext w ctx).2 = some o) :
     o = w.heap.length ∧ some ((tagsFromContext w ctx).1.obj o) = tagsOf w ctx := by
-  sorry
+  exact read_is_copy' w ctx o h
 
 open FmpRpc in
 /-- **Tags on the wire**: the tag map is appended as the last element iff it
@@ -51,6 +52,14 @@ theorem tags_on_wire (seq ct : Int) (name : Bytes) (arg : Value) (t : Option Tag
     layout (.notify name arg t) = [.int 2, .str name, arg] ++ tagTail t ∧
     (tagTail t = [] ↔ (t = none ∨ t = some [])) ∧
     (∀ ts, t = some ts → ts ≠ [] → tagTail t = [tagsValue ts]) := by
-  sorry
+  refine ⟨rfl, rfl, rfl, ?_, ?_⟩
+  · cases t with
+    | none => simp [tagTail]
+    | some ts => cases ts <;> simp [tagTail]
+  · intro ts hts hne
+    subst hts
+    cases ts with
+    | nil => exact absurd rfl hne
+    | cons a l => rfl
 
 end FmpRpc.C19
